@@ -319,12 +319,20 @@ double relBoundRatio, double pwrBoundRatio, size_t r5, size_t r4, size_t r3, siz
 		exe_params = (sz_exedata*)malloc(sizeof(sz_exedata));
 		memset(exe_params, 0, sizeof(sz_exedata));
 	}
-	if(exe_params->intvCapacity == 0)
+	//the quantization state is derived from the configuration for every call: decompression (which resets
+	//exe_params and loads the mode and interval count of the stream it decodes) must not steer later compressions
+	if(confparams_cpr->quantization_intervals > 0)
+	{
+		updateQuantizationInfo(confparams_cpr->quantization_intervals);
+		exe_params->optQuantMode = 0;
+	}
+	else
 	{
 		exe_params->intvCapacity = confparams_cpr->maxRangeRadius*2;
 		exe_params->intvRadius = confparams_cpr->maxRangeRadius;
 		exe_params->optQuantMode = 1;
 	}
+	exe_params->SZ_SIZE_TYPE = sizeof(size_t);
 
 	//correct dimension if needed
 	size_t _r[5];
